@@ -68,10 +68,13 @@ def cases(tier: str, seed: int) -> list[dict]:
         for dim, ps in ((2, True), (2, False), (3, False)):
             for split in SPLITS_ISO:
                 out.append({"fam": "states", "split": split, "mat": "iso", "dim": dim, "ps": ps})
+                if (SPLITS_ISO.index(split) + dim + r) % 2 == 0 or tier != "quick":
+                    out.append({"fam": "states", "split": split, "mat": "iso", "dim": dim, "ps": ps, "modify": True})
             for mat in ("trans", "ortho", "aniso"):
                 for split in SPLITS_ANISO:
                     if r % 3 == ("trans", "ortho", "aniso").index(mat) or tier != "quick":
                         out.append({"fam": "states", "split": split, "mat": mat, "dim": dim, "ps": ps})
+                        out.append({"fam": "states", "split": split, "mat": mat, "dim": dim, "ps": ps, "modify": True})
     hist = []
     for solver in ("History", "HistoryDamage", "BoundConstrain"):
         for regu in ("AT2", "AT1"):
@@ -282,18 +285,42 @@ def run_states(case, ctx, rng):
                 law, _ = gmat.make_law(rng, dim, matk, planeStress=ps)
             model = Models.PhaseField(law, split, "AT2", Gc=1.0, l0=0.1)
     Ne, nPg = int(rng.integers(12, 20)), int(rng.choice([1, 3, 4, 6]))
+    nclasses = _evaluate_states(ctx, rng, model, law, split, dim, Ne, nPg, key0)
+    if case.get("modify"):
+        # the elastic constants are changed after the split has been used once; the model is evaluated BEFORE the harness reads
+        # anything from the law (a read of law.C from outside would refresh what the model may have kept)
+        with ctx.monitored("no-exception", key0 + "/modify/raised"):
+            with quiet():
+                if matk == "iso":
+                    law.v = float(np.clip(law.v * rng.uniform(0.5, 0.9), 0.05, 0.45))
+                    if rng.random() < 0.5:
+                        law.E = law.E * float(rng.uniform(0.5, 2))
+                elif matk == "trans":
+                    law.Et = law.Et * float(rng.uniform(0.6, 0.9))
+                elif matk == "ortho":
+                    law.E2 = law.E2 * float(rng.uniform(0.6, 0.9))
+                else:
+                    n = 3 if dim == 2 else 6
+                    law.Set_C(gmat.random_spd(rng, n), False)
+        _evaluate_states(ctx, rng, model, law, split, dim, Ne, nPg, key0 + "/after-parameter-change")
+        ctx.event("states-after-parameter-change")
+    ctx.describe(f"states/{split}/{matk}/{dim}D/{'ps' if ps else 'pe'}/{'modified' if case.get('modify') else 'once'}", nclasses >= 3, split=split, mat=matk, dim=dim,
+                 Ne=Ne, nPg=nPg, classes=nclasses)
+
+
+def _evaluate_states(ctx, rng, model, law, split, dim, Ne, nPg, key0):
     eps, cls = strain_states(rng, dim, Ne, nPg)
-    ref = reference(split, law, eps, dim)
-    Cn = float(np.abs(np.asarray(law.C)).max())
-    e2 = np.einsum("...i,...i->...", eps, eps)
-    floor = 1e-300
     eps_in = eps.copy()
     from EasyFEA.FEM import FeArray
     with ctx.monitored("no-exception", key0 + "/raised"):
         with quiet(), np.errstate(all="ignore"):
-            cP, cM = model.Calc_C(FeArray.asfearray(eps.copy()))
-            sP, sM = model.Calc_Sigma_e_pg(FeArray.asfearray(eps.copy()))
             pP, pM = model.Calc_psi_e_pg(FeArray.asfearray(eps.copy()))
+            sP, sM = model.Calc_Sigma_e_pg(FeArray.asfearray(eps.copy()))
+            cP, cM = model.Calc_C(FeArray.asfearray(eps.copy()))
+    ref = reference(split, law, eps, dim)
+    Cn = float(np.abs(np.asarray(law.C)).max())
+    e2 = np.einsum("...i,...i->...", eps, eps)
+    floor = 1e-300
     cP, cM, sP, sM, pP, pM = (np.asarray(x, dtype=float) for x in (cP, cM, sP, sM, pP, pM))
     cP, cM = np.broadcast_to(cP, (Ne, nPg) + cP.shape[-2:]), np.broadcast_to(cM, (Ne, nPg) + cM.shape[-2:])
     proj = None
@@ -339,7 +366,7 @@ def run_states(case, ctx, rng):
                 okp = np.all(np.isfinite(proj[mm]))
                 ctx.check("projector-vs-eigh", float(np.abs(proj[mm] - ref["decomposed"][1][mm]).max()) / dscale if okp else np.inf, tol, k + "/P+v")
     ctx.require("input-untouched", np.array_equal(eps, eps_in), key0 + "/input-modified")
-    ctx.describe(f"states/{split}/{matk}/{dim}D/{'ps' if ps else 'pe'}", nclasses >= 3, split=split, mat=matk, dim=dim, Ne=Ne, nPg=nPg, classes=nclasses)
+    return nclasses
 
 
 # ------------------------------------------------------------------------------------------
